@@ -391,13 +391,25 @@ def family_strata(quick: bool) -> list[dict]:
             dict(depth=2, direction="derived_first", union_shape="single_plain", member_level="top", nullable_only=True),
         ]
     out = []
+
+    def add(depth, direction, shape, lvl):
+        out.append(dict(depth=depth, direction=direction, union_shape=shape, member_level=lvl, nullable_only=(len(out) % 3 != 0)))
+
     for depth in (2, 3, 4):
-        for direction in DIRECTIONS:
-            for shape in UNION_SHAPES:
-                for lvl in ("top", "mid", "root"):
-                    if depth == 2 and lvl == "mid":
-                        continue
-                    out.append(dict(depth=depth, direction=direction, union_shape=shape, member_level=lvl, nullable_only=(len(out) % 3 != 0)))
+        for shape in UNION_SHAPES:
+            for lvl in ("top", "mid", "root"):
+                if depth == 2 and lvl == "mid":
+                    continue
+                add(depth, "derived_first", shape, lvl)  # consistent MRO: the whole module is executed and checked
+    for shape in UNION_SHAPES:
+        for lvl in ("top", "root"):
+            add(2, "root_first", shape, lvl)
+    # deeper root-first / mixed chains mostly end in the recorded MRO finding (`class X(Root, Derived)`): a few of each
+    add(3, "root_first", "late+plain", "root")
+    add(4, "root_first", "late+shared", "top")
+    for depth in (2, 3):
+        for shape in ("late+plain", "late+shared", "three"):
+            add(depth, "mixed", shape, "top")
     return out
 
 
